@@ -95,6 +95,7 @@ func staticOptClauses(out string, isChunk func(string) bool) (problems []string,
 
 func runC05(tier string) int {
 	r := harness.NewRun("C05", "model_checking", tier, budget(tier, 50*time.Second, 12*time.Minute))
+	r.HangLimit = 90 * time.Second // one case is one small program: a compilation that takes this long hangs
 	plans, swN := enginePlans(tier)
 	isChunk := func(s string) bool { return chunkLabelRe.MatchString(s) }
 	forEachEngineProgram(r, plans, swN, func(w int, p engineProgram) {
